@@ -140,8 +140,8 @@ Qed.
 
 Lemma wf_tref_equiv x x' pkg rp path : tab_equiv x x' -> wf_tref x pkg rp path -> wf_tref x' pkg rp path.
 Proof.
-  intros He (A & B & C & D). split; [exact A|]. split; [exact (wf_target_same _ _ pkg rp path (tab_equiv_same x x' He) B)|].
-  split; [apply (proj1 He); exact C|exact D].
+  intros He (A & B & C). split; [exact A|]. split; [exact (wf_target_same _ _ pkg rp path (tab_equiv_same x x' He) B)|].
+  apply (proj1 He); exact C.
 Qed.
 
 Lemma wf_dfield_equiv x x' pkg f : tab_equiv x x' -> wf_dfield x pkg f -> wf_dfield x' pkg f.
